@@ -6,6 +6,7 @@ TailFaultySets == {{}} \cup {{s \in Signers : s > N - k} : k \in 1..F}   \* {}, 
 MixedFaultySets == TailFaultySets \cup {{1}} \cup (IF F >= 2 THEN {{1, N}} ELSE {})
 OrdersId == {IdOrder}
 OrdersFwdRev == {IdOrder, [k \in Roots |-> R + 1 - k]}
+OrdersAll == {o \in [Roots -> Roots] : \A a, b \in Roots : a # b => o[a] # o[b]}   \* every order of the roots (simulation, trace validation)
 NoWeaken == {}
 WNoVerify == {"noVerifyReconstructed"}
 WNoEvict == {"noEvict"}
